@@ -14,3 +14,57 @@ mod tests;
 
 #[cfg(test)]
 pub(crate) use indexer::AsyncRichIndexer;
+
+/// verif-hooks: pass-through access to the crate-private `AsyncRichIndexer` over a `SQLXPool`
+/// (the types themselves are `pub(crate)` / in a private module and cannot be re-exported),
+/// constructed exactly like the crate's own tests construct it.
+#[cfg(feature = "verif-hooks")]
+pub mod verif {
+    use crate::indexer::AsyncRichIndexer;
+    use crate::indexer_handle::AsyncRichIndexerHandle;
+    use crate::store::SQLXPool;
+    use ckb_app_config::RichIndexerConfig;
+    use ckb_indexer_sync::{CustomFilters, Error};
+    use ckb_types::core::BlockView;
+
+    /// The real `AsyncRichIndexer` (no pool overlay, no custom filters) plus its store.
+    pub struct VerifRichIndexer {
+        indexer: AsyncRichIndexer,
+        store: SQLXPool,
+    }
+
+    impl VerifRichIndexer {
+        /// Connect to a sqlite store (`sqlite://?mode=memory` or a file path) like
+        /// `RichIndexerService::new` does and wrap it like `RichIndexerService::get_indexer` does.
+        pub async fn connect_sqlite(store_path: &str) -> Self {
+            let mut store = SQLXPool::default();
+            let config = RichIndexerConfig {
+                store: store_path.into(),
+                ..Default::default()
+            };
+            store
+                .connect(&config)
+                .await
+                .expect("connect to the rich-indexer sqlite store");
+            let indexer =
+                AsyncRichIndexer::new(store.clone(), None, CustomFilters::new(None, None));
+            Self { indexer, store }
+        }
+        /// `AsyncRichIndexer::append` (what `IndexerSync::append` of `RichIndexer` blocks on)
+        pub async fn append(&self, block: &BlockView) -> Result<(), Error> {
+            self.indexer.append(block).await
+        }
+        /// `AsyncRichIndexer::rollback` (what `IndexerSync::rollback` of `RichIndexer` blocks on)
+        pub async fn rollback(&self) -> Result<(), Error> {
+            self.indexer.rollback().await
+        }
+        /// The RPC-level handle over the same store (`RichIndexerService::async_handle`).
+        pub fn handle(&self, request_limit: usize) -> AsyncRichIndexerHandle {
+            AsyncRichIndexerHandle::new(self.store.clone(), None, request_limit)
+        }
+        /// Number of rows of a table (read-only; `SQLXPool::fetch_count`).
+        pub async fn count(&self, table_name: &str) -> u64 {
+            self.store.fetch_count(table_name).await.expect("count")
+        }
+    }
+}
